@@ -146,6 +146,9 @@ StepDecode(st) ==
   ELSE IF c.what = "raw" THEN
     LET h == Hex32(st.bytes) IN
     IF h.c = "reject" THEN FailWith(st, "raw_digest") ELSE [st EXCEPT !.pc = "digest", !.digest = h.v, !.either = @ \/ h.c = "either"]
+  ELSE IF c.sub = "hex" /\ c.what = "decode" /\ "rl" \in DOMAIN c.inp THEN
+    \* a run-length input (tens of megabytes): only refusal is decided, see HexCodec!HexDecodeClassRL
+    IF HexDecodeClassRL(c.inp.rl).c = "reject" THEN FailWith(st, "hex_text") ELSE OpenWith(st, "hex_run_length_input")
   ELSE IF c.sub = "hex" /\ c.what = "decode" THEN
     LET h == HexDecodeClass(st.bytes) IN
     IF h.c = "reject" THEN FailWith(st, "hex_text")
@@ -166,6 +169,14 @@ StepDigest(st) ==
   IF c.what = "transaction" THEN
     \* hash transaction --signature S: keccak of the signed payload, computed at print time
     [st EXCEPT !.pc = IF c.sub = "sign" THEN "sign" ELSE "print", !.digest = SigningDigest(st.tx)]
+  \* a run-length input pre \o <<b, ..., b>> (rep times; pat one byte, no tail): tens of megabytes, hashed without a TLC sequence
+  ELSE IF c.what \in {"message", "data"} /\ "rl" \in DOMAIN c.inp THEN
+    LET rl == c.inp.rl
+        n  == Len(rl.pre) + rl.rep
+    IN  IF Len(rl.pat) # 1 \/ rl.tail # <<>> THEN OpenWith(st, "run_length_shape")
+        ELSE [st EXCEPT !.pc = IF c.sub = "sign" THEN "sign" ELSE "print",
+                        !.digest = IF c.what = "data" THEN Keccak256Rep(rl.pre, rl.pat[1], rl.rep)
+                                   ELSE Keccak256Rep(Eip191Prefix \o DecimalAscii(n) \o rl.pre, rl.pat[1], rl.rep)]
   ELSE IF c.what = "message" THEN [st EXCEPT !.pc = IF c.sub = "sign" THEN "sign" ELSE "print", !.digest = PersonalDigest(st.bytes)]
   ELSE IF c.what = "data" THEN [st EXCEPT !.pc = "print", !.digest = Keccak256(st.bytes)]
   ELSE [st EXCEPT !.pc = IF c.sub = "sign" THEN "sign" ELSE "print"]          \* typeddata, raw: digest already known
